@@ -86,3 +86,14 @@ CASES += [
     {"name": "width of the first interval selected by testing the third", "kind": "mutant", "rule": "C12-K", "edits": [
         ("quantarhei/spectroscopy/mocktwodcalculator.py", "        if pathway.widths[1] < 0.0:\n            widthx = self.widthx", "        if pathway.widths[3] < 0.0:\n            widthx = self.widthx", 1)]},
 ]
+
+_DD2 = ("        dd2 = numpy.zeros((Ntot,Ntot),dtype=numpy.float64)\n        for a in range(Ntot):\n            for b in range(Ntot):\n"
+        "                dd2[a,b] = numpy.dot(self.DD[a,b,:],self.DD[a,b,:])\n")
+CASES += [
+    {"name": "squared dipoles vectorised with two letters for the Cartesian axis (seeded change of round 7)", "kind": "mutant", "rule": "C12-L", "edits": [
+        (_AB12, _DD2, "        dd2 = numpy.einsum(\"abi,abj->ab\", self.DD, self.DD)\n", 1)]},
+    {"name": "squared dipoles vectorised as a scalar product", "kind": "twin", "edits": [
+        (_AB12, _DD2, "        dd2 = numpy.einsum(\"abi,abi->ab\", self.DD, self.DD)\n", 1)]},
+    {"name": "squared dipoles as a sum of squares over the last axis", "kind": "twin", "edits": [
+        (_AB12, _DD2, "        dd2 = numpy.sum(self.DD**2, axis=2)\n", 1)]},
+]
